@@ -91,6 +91,14 @@ pub fn worker(args: &Args, w: &Worker) -> i32 {
         if path.seed.fen == seeds::START {
             variants.push((position_line(&path.seed.fen, &all, true), true));
         }
+        // UCI allows arbitrary white space between tokens: the same command with doubled spaces,
+        // with tabs, and with leading/trailing blanks must set up the same position
+        if n % 4 == 0 {
+            let plain = variants[0].0.clone();
+            variants.push((plain.replace(' ', "  "), false));
+            variants.push((plain.replace(' ', "\t"), false));
+            variants.push((format!("  {plain} \t"), false));
+        }
         for (line, _) in &variants {
             w.count("position_commands", 1);
             let lines = vec!["position startpos moves d2d4 d7d5".to_string(), line.clone()];
@@ -259,6 +267,19 @@ pub fn run(args: &Args) -> i32 {
         let mut moves = sd.prefix.clone();
         moves.push(m.uci());
         sessions.push(vec![position_line(&sd.fen, &moves, false), "isready".into(), "go depth 2".into(), "isready".into()]);
+    }
+    // a position command that arrives while a search is running must be obeyed as well: the next
+    // go (after stop) has to answer for the NEW position (old: White to move, new: Black to move)
+    for (k, sd) in seeds.iter().enumerate() {
+        if k % (step * 4) != 0 {
+            continue;
+        }
+        let Ok((_, pos, _, _)) = explore::open_seed(sd) else { continue };
+        if pos.legal_moves().is_empty() {
+            continue;
+        }
+        let old = if pos.white { "position startpos moves e2e4" } else { "position startpos" };
+        sessions.push(vec![old.to_string(), "go infinite".into(), position_line(&sd.fen, &sd.prefix, false), "isready".into(), "stop".into(), "go depth 1".into(), "isready".into()]);
     }
     let checked = AtomicU64::new(0);
     let machinery: std::sync::Mutex<Vec<String>> = std::sync::Mutex::new(vec![]);
